@@ -902,8 +902,9 @@ def replay_c18(d, case):
             with contextlib.redirect_stdout(buf):
                 minuterie.main()
             out = buf.getvalue()
+            nums = re.findall(r'[-+]?(?:\d+\.?\d*(?:[eE][-+]?\d+)?|\.\d+(?:[eE][-+]?\d+)?|nan|inf)', out.split('\n')[0] if '=' not in out else out.split('=', 1)[1])
             try:
-                got = float(out.split('=')[1])
+                got = float(nums[-1])
             except Exception:
                 return True, 'printed %r' % out
             return (got != case['time']), 'printed time %r, header time %r' % (got, case['time'])
@@ -964,6 +965,12 @@ def replay_c18(d, case):
             return f
         keys = sorted(set(class_key(info, f) for f in F), key=str.lower)
         species = sorted(re.sub(r'\)$', '', re.sub(r'^Y\(', '', f)) for f in F if re.search(info['Y'][0], f))
+        if 'Species found in file:' not in out and 'Fields found in file:' not in out:
+            words = [w for l in out.splitlines() if not l.startswith('+') for w in l.split()]
+            for name in list(keys) + list(species):
+                if words.count(name) != 1:
+                    return True, '%r occurs %d times in the listing' % (name, words.count(name))
+            return False, 'default listing equal'
         blocks = out.split('Species found in file:')
         vtxt = blocks[0].split('Fields found in file:')[-1]
         vnames = [w for l in vtxt.splitlines() if not l.startswith('+') for w in l.split()]
